@@ -37,7 +37,7 @@ theorem any_segment_never_panics (segEmpty prevNonEmpty notFirst : Bool) :
 
 /-- maps of named or unnamed types, with any key and element type -/
 theorem any_map_never_panics (m : MapDesc) : (mapProvider Gen.dynFacts m).isPanic = false := by
-  have h := dyn_facts_ok.2.2.2.2
+  have h := dyn_facts_ok.2.2.2.2.1
   unfold mapProvider
   simp only [h, ↓reduceIte]
   split
@@ -59,8 +59,34 @@ theorem any_value_never_panics : ∀ k : Kind, (toProvider Gen.dynFacts k).isPan
   | .func_ => rfl
   | .slice_ => rfl
 
-/-- without the guards the model reproduces the defects D5–D9 -/
-def pinned : Dyn.Facts := ⟨false, false, false, false, false⟩
+/-- whatever a Preprocess function returns — nil, a typed-nil pointer, pointers of any depth to
+    anything — unwrapping it does not panic -/
+theorem any_preprocess_result_never_panics : ∀ k : Kind, (unwrapPtr Gen.dynFacts k).isPanic = false
+  | .nilPtr => by have h := dyn_facts_ok.2.2.2.2.2.1; simp [unwrapPtr, h, Outcome.isPanic]
+  | .ptrTo k => by simpa [unwrapPtr] using any_preprocess_result_never_panics k
+  | .nilValue => rfl
+  | .struct_ => rfl
+  | .map_ _ => rfl
+  | .scalar => rfl
+  | .chan_ => rfl
+  | .func_ => rfl
+  | .slice_ => rfl
+
+/-- struct inputs with embedded pointers, nil or not -/
+theorem promoted_field_never_panics (embeddedIsNil : Bool) : (readPromotedField Gen.dynFacts embeddedIsNil).isPanic = false := by
+  have h := dyn_facts_ok.2.2.2.2.2.2.1
+  simp [readPromotedField, h, Outcome.isPanic]
+
+/-- requests with or without a body -/
+theorem any_body_never_panics (bodyIsNil : Bool) : (decodeBody Gen.dynFacts bodyIsNil).isPanic = false := by
+  have h := dyn_facts_ok.2.2.2.2.2.2.2
+  cases bodyIsNil <;> simp [decodeBody, h, Outcome.isPanic]
+
+/-- without the guards the model reproduces the defects D5–D9, D27, D33, D34 -/
+def pinned : Dyn.Facts := ⟨false, false, false, false, false, false, false, false⟩
+example : (unwrapPtr pinned (.ptrTo .nilPtr)).isPanic = true := by decide
+example : (readPromotedField pinned true).isPanic = true := by decide
+example : (decodeBody pinned true).isPanic = true := by decide
 example : (upperFirst pinned true 40).isPanic = true := by decide
 example : (useProvider pinned true).isPanic = true := by decide
 example : (readStructField pinned true false).isPanic = true := by decide
